@@ -694,6 +694,12 @@ func sliceSources(s ssa.Value) (elems []ssa.Value, from []*ssa.Call, apps []*ssa
 			return walk(x.X)
 		case *ssa.MakeSlice:
 			return true
+		case *ssa.Alloc:
+			// the empty literal []T{}: a slice of a zero-length array
+			if at, isArr := derefT(x.Type()).Underlying().(*types.Array); isArr && at.Len() == 0 {
+				return true
+			}
+			return false
 		case *ssa.Const:
 			return x.IsNil()
 		case *ssa.ChangeType:
